@@ -235,6 +235,7 @@ class LayoutGen:
     def special(self) -> List[str]:
         r = self.r
         k = r.choice(["assigned", "second_arg", "keyword", "keyword", "kw_chain", "kw_chain", "kw_chain", "kw_names",
+                      "wrapped_alone", "wrapped_neighbour", "wrapped_neighbour", "cond_arg", "cond_arg",
                       "listed", "cond_expr", "tuple", "concat", "comp",
                       "semicolon", "helper", "default_arg", "subscript", "eager_nested", "eager_nested",
                       "enclosed", "enclosed", "enclosed", "enclosed"])
@@ -276,6 +277,38 @@ class LayoutGen:
             m2 = self.marker("lambda", iop, iargs, True, False, "nested_passed")
             inner = "%s%d%slambda %s: %s.v + %d" % (TAG_A, m2, TAG_B, ", ".join(iargs), iargs[0], m2)
             return ["r = eager.Select(%s%d%slambda %s: (ds.%s(%s), %s.v + %d)[1])" % (TAG_A, m1, TAG_B, a, iop, inner, a, m1)]
+        if k in ("wrapped_alone", "wrapped_neighbour", "cond_arg"):
+            # the passed lambda is not written directly as the operator's argument (argument of a pass-through helper,
+            # branch of a conditional expression): it is filed under another NAME.  Benign variants only - alone on the
+            # line, or next to a lambda that differs in parameter names or is filed under another method: the call must
+            # raise or record the right lambda.  (A same-signature neighbour filed under the called method is the OPEN
+            # known finding of c03.KNOWN_OPEN and is deliberately not generated.)
+            b = r.choice([n for n in ARG_NAMES if n != a])
+            wrap = lambda t: r.choice(["ident(%s)", "ident(%s)", "(%s)", "compare(%s, 1)"]) % t
+            if k == "wrapped_alone":
+                op = r.choice(OPS)
+                m = self.marker("lambda", op, [a], True, False, "wrapped_alone")
+                return ["r = %s.%s(%s)" % (self.dsname(), op, wrap(self.lam(m, [a], op, False)))]
+            if k == "wrapped_neighbour":
+                form = r.choice(["args", "args", "method"])
+                op1 = "Select" if form == "args" else "Where"
+                a1 = b if form == "args" else r.choice([a, b])       # same method => different parameter names
+                first_wrapped = r.random() < .4
+                m1 = self.marker("lambda", op1, [a1], True, not first_wrapped, "wrapped_neighbour")
+                m2 = self.marker("lambda", "Select", [a], True, first_wrapped, "wrapped_neighbour")
+                l1, l2 = self.lam(m1, [a1], op1, False), self.lam(m2, [a], "Select", False)
+                if first_wrapped:
+                    l1 = "ident(%s)" % l1
+                else:
+                    l2 = "ident(%s)" % l2
+                return ["r = %s.%s(%s)%s.Select(%s)" % (self.dsname(), op1, l1, self.hop(.1), l2)]
+            flag = r.random() < .5
+            a2 = b if not flag or r.random() < .5 else a          # the second branch is passed => different names
+            m1 = self.marker("lambda", "Select", [a], flag, False, "cond_arg")
+            m2 = self.marker("lambda", "Select", [a2], not flag, False, "cond_arg")
+            return ["flag_%d = %s" % (m1, flag),
+                    "r = %s.Select((%s) if flag_%d else (%s))" % (self.dsname(), self.lam(m1, [a], "Select", False), m1,
+                                                                self.lam(m2, [a2], "Select", False))]
         if k == "assigned":
             m = self.marker("lambda", "Select", [a], True, False, "assigned")
             return ["f_%d = %s" % (m, self.lam(m, [a], "Select", False)), "r = ds.Select(f_%d)" % m]
